@@ -27,6 +27,8 @@ def gen(rng, tier):
     ctx.n_generators = rng.randint(1, 3)
     ctx.p_array_param = rng.choice([0.0, 0.3, 0.6])
     ctx.p_auto_chunks = 0.1
+    ctx.p_random_twin = 0.3
+    ctx.p_random_sibling = rng.choice([0.15, 0.5])
     n = rng.randint(3, 10)
     recipe = G.gen_program(ctx, n, n_leaves=rng.randint(1, 3))
     steps = recipe["steps"]
